@@ -79,6 +79,8 @@ def classify(case, info):
         labels.append("nested-gather")
         if '"via": "run"' in text:
             labels.append("tasks-created-inside-run()")
+    if case.get("closed_ctx") and case["outer"] == 0:
+        labels.append("tasks-created-in-a-context()-block-left-before-they-run")
     if case.get("dest_yield"):
         labels.append("threads-also-switch-while-a-destination-is-called")
     nontrivial = holding(case) >= 2 and info["switches"] >= 2
@@ -111,7 +113,7 @@ def strategy(mode):
         return st.builds(lambda start, pre, body: {"start": start, "pre": pre, "body": body}, st.sampled_from(starts), st.sampled_from([False, False, True]), bodies(mode))
 
     return st.builds(
-        lambda outer, shared, dy, plans, workers: {"mode": mode, "outer": outer, "shared": shared, "dest_yield": dy and mode == "thread", "plans": plans, "workers": workers},
+        lambda outer, shared, dy, plans, workers: {"mode": mode, "outer": outer, "shared": shared, "dest_yield": dy and mode == "thread", "closed_ctx": dy and mode == "async", "plans": plans, "workers": workers},
         st.integers(0, 2),
         st.booleans(),
         st.booleans(),
